@@ -113,6 +113,12 @@ def generate(streams: core.Streams, tier: str) -> dict:
                                                "include": ["servers"]})
             if gen.chance(w, 0.5):
                 spec["transformations"][0]["filter"] = gen.pick(w, ["^srvA", "B", "srv"])
+            # make sure a rule uses the placeholder the file provides
+            victim = docs[gen.pick(w, sorted(docs))]
+            if "detection" in victim and "phsrc" not in victim["detection"]:
+                first = next(k for k in victim["detection"] if k != "condition")
+                victim["detection"]["phsrc"] = {"TargetObject|expand": "%servers%"}
+                victim["detection"]["condition"] = f"{first} or phsrc"
         pipelines[f"p{i}"] = spec
     class_pipelines: dict[str, dict] = {}
     for cls in CLASSES:
@@ -178,7 +184,7 @@ def generate(streams: core.Streams, tier: str) -> dict:
             ops.append({"op": "ApplyDirect", "pipeline": gen.pick(s, sorted(pipelines)), "doc": gen.pick(s, dids)})
         elif r < 0.91:
             ops.append({"op": "Validate", "docs": s.sample(dids, s.randint(1, len(dids)))})
-        elif r < 0.96:
+        elif r < 0.94:
             ops.append({"op": "CacheClear", "which": gen.pick(f, ["parse", "packrat", "typehint", "all"])})
         else:
             file_present = not file_present
